@@ -586,6 +586,29 @@ class _NumpyProxy:
         return out
 
 
+class _Entries:
+    """a traced output: concrete indices, symbolic (or literal) affinities"""
+
+    def __init__(self, ents):
+        self.ents = ents
+
+    def lean(self):
+        from .. import symtrace as st
+        opt = lambda x: "none" if x is None else f"some {x}"
+        return "[" + ", ".join(f"⟨{opt(s_)}, {opt(t_)}, {a_.e if isinstance(a_, st.Sym) else st.lit(a_)}⟩"
+                               for s_, t_, a_ in self.ents) + "]"
+
+
+def _tree_lean(tree, indent=4):
+    """Lean term of a traced decision tree whose leaves are `_Entries`"""
+    if tree[0] == "ite":
+        pad = " " * indent
+        return (f"if {tree[1][0]} then\n{pad}{_tree_lean(tree[2], indent + 2)}\n"
+                f"{' ' * (indent - 2)}else\n{pad}{_tree_lean(tree[3], indent + 2)}")
+    leaf = tree[1]
+    return "some " + leaf[1].lean() if leaf[0] == "ok" else "none"
+
+
 def _sym_thunk(n, m, asg):
     from ..symtrace import Sym
     names = [[f"a{i}{j}" for j in range(m)] for i in range(n)]
@@ -618,22 +641,12 @@ def _sym_thunk(n, m, asg):
                     M.np = old_np
                 if had_numpy:
                     M.numpy = old_numpy
-        # order-free encoding (`encodeOut`): per source its target key and affinity, per target its source key
+        # canonical order (`sortEntries`: by source key, then target key; None first); stable like the insertion sort
         key = lambda x: 0 if x is None else int(x) + 1
-        enc = []
-        for i in range(n):
-            es = [e for e in out if e[0] is not None and int(e[0]) == i]
-            if len(es) != 1:
-                raise RuntimeError(f"source index {i} mentioned {len(es)} times on a symbolic path")
-            enc += [key(es[0][1]), es[0][2] if isinstance(es[0][2], Sym) else Fraction(es[0][2])]
-        for j in range(m):
-            es = [e for e in out if e[1] is not None and int(e[1]) == j]
-            if len(es) != 1:
-                raise RuntimeError(f"target index {j} mentioned {len(es)} times on a symbolic path")
-            enc.append(key(es[0][0]))
-        if any(e[0] is None and e[1] is None for e in out):
-            raise RuntimeError("an entry without any index on a symbolic path")
-        return tuple(enc)
+        ents = [(None if s_ is None else int(s_), None if t_ is None else int(t_),
+                 a_ if isinstance(a_, Sym) else Fraction(a_)) for s_, t_, a_ in out]
+        ents.sort(key=lambda e: (key(e[0]), key(e[1])))
+        return _Entries(ents)
     return [x for row in names for x in row], thunk
 
 
@@ -648,7 +661,7 @@ def _sym_one(ctx, n, m, asg):
     try:
         res = st.trace(thunk, catch=())
         tree = st.to_tree(res)
-        body = st.tree_lean(tree, ok=lambda t: "some [" + t[1:-1] + "]", indent=4)
+        body = _tree_lean(tree)
     except Exception as e:  # noqa: BLE001 - the tie cannot be re-established: a broken obligation, never a crash
         from ..leanio import InfraError
         if isinstance(e, InfraError):
@@ -664,12 +677,12 @@ def _sym_one(ctx, n, m, asg):
     assigned = "[" + ", ".join(f"({r}, {c})" for r, c in asg) + "]"
     cases = " <;> ".join(f"by_cases h{r}{c} : a{r}{c} ≤ 0" for r, c in asg)
     hyps = ", ".join(f"h{r}{c}" for r, c in asg)
-    simp = ("simp [" + (hyps + ", " if hyps else "") + f"{name}, encodeResult, encodeOut, selectMatches, assignLoop, matOfRows, "
-            "emit, pairEntry, srcOnly, tgtOnly, optKey, List.range, List.range.loop, List.find?, List.erase]")
+    simp = ("simp [" + (hyps + ", " if hyps else "") + f"{name}, selectMatches, assignLoop, matOfRows, emit, pairEntry, srcOnly, "
+            "tgtOnly, sortEntries, insertEntry, keyLe, entryKey, Except.toOption, List.range, List.range.loop, List.erase]")
     tactic = (f"{cases} <;> ({simp}) <;> grind" if asg else f"{simp}")
-    src = (f"open SE SE.Matching in\ndef {name} {binder}: Option (List Rat) :=\n    {body}\n"
+    src = (f"open SE SE.Matching in\ndef {name} {binder}: Option (List Entry) :=\n    {body}\n"
            f"open SE SE.Matching in\ntheorem {name}_tie {binder}: {name} {args} = "
-           f"encodeResult {n} {m} (selectMatches {n} {m} (matOfRows {matrix}) {assigned}) := by\n  {tactic}\n")
+           f"(selectMatches {n} {m} (matOfRows {matrix}) {assigned}).toOption.map sortEntries := by\n  {tactic}\n")
     ctx.obligation(name, src, meta)
 
 
